@@ -532,10 +532,8 @@ void tokenize_cleanup()
             Chunk *to_be_deleted = prev;
             prev = prev->GetPrevNcNnl();
 
-            if (prev->IsNotNullChunk())
-            {
-               Chunk::Delete(to_be_deleted);
-            }
+            // also when 'static' is the first token of the file: its text is part of pc now
+            Chunk::Delete(to_be_deleted);
          }
       }
 
